@@ -43,6 +43,8 @@ class ReqSim(Sim):
         self.attempts = {}
         for name in ('_make_direct_connection', '_make_indirect_connection'):
             self._wrap(name)
+        if sc.get('listeners'):
+            self.add_listeners(sc['listeners'])     # suspending / raising listeners on the bus (see c10_sim.Sim.add_listeners)
 
     def _wrap(self, name):
         n = self.network
